@@ -14,7 +14,18 @@ type handoffSched struct{ events chan *Task }
 func (t *Task) initHandoff()  { t.ho.wake = make(chan grant) }
 func (s *Sched) initHandoff() { s.ho.events = make(chan *Task) }
 
-func (t *Task) sendGrant(g grant)  { t.ho.wake <- g }
+func (t *Task) sendGrant(g grant) { t.ho.wake <- g }
+
+// sendKill delivers the kill grant unless the task is not waiting for one
+// (it is stuck in real blocking code): then it is counted as leaked.
+func (t *Task) sendKill() bool {
+	select {
+	case t.ho.wake <- grant{kill: true}:
+		return true
+	case <-time.After(2 * time.Second):
+		return false
+	}
+}
 func (t *Task) waitGrant() grant   { return <-t.ho.wake }
 func (s *Sched) postEvent(t *Task) { s.ho.events <- t }
 func (s *Sched) waitEvent()        { <-s.ho.events }
